@@ -891,10 +891,7 @@ Lemma representable_ptr_scalar orc opts te n t w :
   is_scalar_type t = true -> scalar_tok w = true ->
   representable orc opts te (S (S n)) (TPtr t) (den w) =
   match w with WNull => RSome XNil | _ => rep_map XPtr (rep_scalar orc t (den w)) end.
-Proof.
-  intros Ht Hs. destruct w; try discriminate; cbn [den]; cbn [representable]; try reflexivity;
-    rewrite <- (representable_scalar orc opts te n t _ Ht eq_refl) || idtac; destruct t; try discriminate; reflexivity.
-Qed.
+Proof. intros Ht Hs. destruct t; try discriminate; destruct w; try discriminate; reflexivity. Qed.
 
 Theorem accepts_ptr_scalar orc opts te f t w v :
   oracle_total orc -> law_f2i orc -> law_uuid orc ->
